@@ -49,6 +49,7 @@ type cluOp struct {
 	Secs     int               `json:"secs,omitempty"`
 	NewName  string            `json:"new_name,omitempty"`
 	Stdin    bool              `json:"stdin,omitempty"`
+	IgnHook  bool              `json:"ignore_hook,omitempty"`
 }
 
 type cluH struct{}
@@ -112,6 +113,7 @@ func genCreate(g *rand.Rand, cfg *cluCfg, property string) cluOp {
 		op.Limit = 1 + g.IntN(3)
 	}
 	genFilter(g, cfg, &op)
+	op.IgnHook = g.IntN(3) == 0
 	rc := resCfg{ShareBase: cfg.ShareBase}
 	op.Req = genReq(g, &rc, "")
 	if op.Req.MemReq > 1024*mib {
@@ -610,7 +612,7 @@ func (w *cluWorld) deployOpts(op cluOp) *coretypes.DeployOptions {
 	return &coretypes.DeployOptions{
 		Name: op.App, Entrypoint: &coretypes.Entrypoint{Name: op.Entry}, Podname: w.podName(op.Pod), NodeFilter: nf,
 		Image: "img", Count: op.Count, DeployStrategy: op.Strategy, NodesLimit: op.Limit, Resources: rawReq(op.Req), IgnorePull: true,
-		OpenStdin: op.Stdin,
+		OpenStdin: op.Stdin, IgnoreHook: op.IgnHook,
 	}
 }
 
